@@ -1,9 +1,24 @@
-(* C03 placeholder until the EM-monotonicity proof lands; the loop theorems are already here. *)
+(* C03  GMM ML training never decreases the likelihood and stops by its stated rule. *)
 From Coq Require Import Reals List.
-From BLE Require Import Num.InstR Model.GMM Proofs.GMMLik Proofs.GMMFit.
+From BLE Require Import Num.InstR Model.GMM Proofs.RLemmas Proofs.GMMLik Proofs.GMMStats Proofs.GMMEM Proofs.GMMFit.
 Import ListNotations MR.
 Open Scope R_scope.
 
+(* one EM iteration with ANY of the 8 switch settings, no count floor / variance floor active:
+   the new model is well-formed, its weights are on the simplex and the average training
+   log-likelihood is equal or higher - every number of components, features and samples *)
+Theorem C03_em_iteration_monotone (sw : switches) (eps : R) (nf : nat) (X : list (list R)) (mc : machine) :
+  X <> [] -> rows_ok nf X -> wf_gmm nf (g mc) -> rsum (ws (g mc)) = 1 -> 0 < eps ->
+  length (ws (g mc)) = length (mus (g mc)) -> length (ws (g mc)) = length (vars (g mc)) ->
+  let st := e_step nf (g mc) X in
+  floors_inactive sw eps st mc ->
+  let mc' := ml_m_step sw eps st mc in
+  wf_gmm nf (g mc') /\ rsum (ws (g mc')) = 1 /\ avg_ll (g mc) X <= avg_ll (g mc') X.
+Proof. exact (em_monotone_ml sw eps nf X mc). Qed.
+Print Assumptions C03_em_iteration_monotone.
+
+(* the loop: at most cap iterations; the result is the n-times iterated model; if it stopped before
+   the cap the relative-change rule fired at iteration n (n >= 2), and it fired at no earlier iteration *)
 Theorem C03_fit_iterations tr sw eps cthr nf chunks cap mc mc' n hist :
   fit cap tr sw eps cthr nf chunks mc = Some (mc', n, hist) ->
   (n <= cap)%nat /\ iterate tr sw eps nf chunks n mc = Some (mc', hist) /\ length hist = n
@@ -11,3 +26,30 @@ Theorem C03_fit_iterations tr sw eps cthr nf chunks cap mc mc' n hist :
   /\ (forall i, (0 < i < n)%nat -> stops cthr (skipn (n - i) hist) = false).
 Proof. exact (fit_iterations tr sw eps cthr nf chunks cap mc mc' n hist). Qed.
 Print Assumptions C03_fit_iterations.
+
+Theorem C03_stop_rule_is_relative_change cthr cur prev rest th : cthr = Some th ->
+  (stops cthr (cur :: prev :: rest) = true <-> rel_change prev cur <= th).
+Proof. exact (stops_spec cthr cur prev rest th). Qed.
+Print Assumptions C03_stop_rule_is_relative_change.
+
+Theorem C03_never_stops_at_first_iteration cthr x : stops cthr [x] = false.
+Proof. exact (stops_first cthr x). Qed.
+Print Assumptions C03_never_stops_at_first_iteration.
+
+Theorem C03_no_threshold_runs_to_cap tr sw eps nf chunks cap mc mc' n hist :
+  fit cap tr sw eps None nf chunks mc = Some (mc', n, hist) -> n = cap.
+Proof. exact (fit_no_threshold tr sw eps None nf chunks cap mc mc' n hist eq_refl). Qed.
+Print Assumptions C03_no_threshold_runs_to_cap.
+
+(* "no iteration limit": once the rule has fired, any larger cap returns the same result *)
+Theorem C03_cap_irrelevant_after_stop tr sw eps cthr nf chunks cap cap' step prev mc hist r :
+  (cap <= cap')%nat ->
+  fit_loop cap step prev tr sw eps cthr nf chunks mc hist = Some r ->
+  (let '(_, n, _) := r in (n < step + cap)%nat) ->
+  fit_loop cap' step prev tr sw eps cthr nf chunks mc hist = Some r.
+Proof. exact (fit_cap_irrelevant_after_stop tr sw eps cthr nf chunks cap cap' step prev mc hist r). Qed.
+Print Assumptions C03_cap_irrelevant_after_stop.
+
+Example C03_nonvacuous : wf_gmm 2 {| ws := [/4; 3/4]; mus := [[0; 0]; [4; 4]]; vars := [[1; 1]; [2; /2]] |}
+                        /\ rsum [/4; 3/4] = 1.
+Proof. split. exact wf_example. simpl. field. Qed.
